@@ -31,7 +31,7 @@ def repo_clean():
     return sh(["git", "-C", "/repo", "status", "--porcelain"]).stdout.strip() == ""
 
 
-def confirm(src_dir, prop):
+def confirm(src_dir, prop, tag=""):
     if os.path.exists(SCRATCH):
         sh(["git", "-C", "/repo", "worktree", "remove", "--force", SCRATCH])
         shutil.rmtree(SCRATCH, ignore_errors=True)
@@ -69,12 +69,12 @@ def confirm(src_dir, prop):
             rec["confirmed"] = good
             print(prop, mid, "clean=%s mutant=%s tests=%r -> %s" % (rec["demo_clean_exit"], rec["demo_mutant_exit"], rec["tests_with_mutant"], "CONFIRMED" if good else "REJECTED"))
             if good:
-                d = os.path.join(SEEDED, "%s-%s" % (prop, mid))
+                d = os.path.join(SEEDED, "%s-%s%s" % (prop, tag, mid))
                 os.makedirs(d, exist_ok=True)
                 shutil.copy(diff, os.path.join(d, "patch.diff"))
                 shutil.copy(demo, os.path.join(d, "demo.py"))
                 needs = open(md).read() if os.path.exists(md) else ""
-                meta = {"id": "%s-%s" % (prop, mid), "property": prop, "needs_to_manifest": needs,
+                meta = {"id": "%s-%s%s" % (prop, tag, mid), "property": prop, "needs_to_manifest": needs,
                         "confirmed_by": {"scratch_worktree": SCRATCH, "repo_head": sh(["git", "-C", "/repo", "rev-parse", "--short", "HEAD"]).stdout.strip(),
                                          "demo_on_clean_tree_exit": rec["demo_clean_exit"], "demo_with_change_exit": rec["demo_mutant_exit"],
                                          "test_suite_with_change": rec["tests_with_mutant"],
@@ -123,7 +123,7 @@ def run(ids, checks, tier):
 
 if __name__ == "__main__":
     if sys.argv[1] == "confirm":
-        confirm(sys.argv[2], sys.argv[3])
+        confirm(sys.argv[2], sys.argv[3], sys.argv[4] if len(sys.argv) > 4 else "")
     else:
         args = sys.argv[2:]
         checks, tier, ids = None, "quick", []
